@@ -36,6 +36,11 @@ pub struct Run {
     pub net_faults: Vec<Option<String>>,
     pub fs_faults: FsFaultSpec,
     pub hash_seed: u64,
+    /// The run is killed at a point of its journalled file-system activity chosen from this seed:
+    /// only a prefix of what it did to the disk survives (the last write possibly cut); an in-memory
+    /// cache keeps nothing of it. The history goes on.
+    #[serde(default)]
+    pub kill_seed: Option<u64>,
 }
 
 #[derive(Clone, Debug, Serialize, Deserialize, PartialEq)]
@@ -191,6 +196,7 @@ pub fn generate(seed: u64, index: u64) -> Sc {
             net_faults,
             fs_faults,
             hash_seed: r.next_u64(),
+            kill_seed: if faulty && r.chance(1, 8) { Some(r.next_u64()) } else { None },
         });
     }
     Sc { cal, format, cache, max_write: *r.pick(&[usize::MAX, usize::MAX, 4096, 512, 7]), max_read: *r.pick(&[usize::MAX, usize::MAX, 4096, 512, 7]), faulty, runs, eintr_every: 0 }
@@ -299,6 +305,7 @@ impl Engine for C13 {
             if run.app_path && run.app_files > 1 {
                 st.bump("probe.app_path_several_files_one_loader");
             }
+            let disk_before_run = if run.kill_seed.is_some() { Some(crate::interpose::with_world(|w| w.fs.disk.clone())) } else { None };
             let mut fs_faults = run.fs_faults.clone();
             if let Some(k) = fs_faults.enospc_before_end {
                 // dry run on a copy of the world: how many bytes would this run write?
@@ -351,8 +358,28 @@ impl Engine for C13 {
                 hash_seed: run.hash_seed,
             });
             st.bump("sim.processes");
-            if sc.cache == CacheKind::Mem && obs.panic.is_none() {
+            if sc.cache == CacheKind::Mem && obs.panic.is_none() && run.kill_seed.is_none() {
                 mem = obs.mem_out.clone();
+            }
+            let mut killed = false;
+            if let (Some(ks), Some(before)) = (run.kill_seed, disk_before_run) {
+                // the process dies: only a prefix of its file-system activity survives
+                let j = &obs.proc.journal;
+                let mut kr = Rng::new(ks);
+                let k = kr.range(0, j.len() as i64) as usize;
+                let cut = match j.get(k) {
+                    Some(crate::simfs::Op::Write { data, .. }) if data.len() > 1 && kr.chance(2, 3) => {
+                        if data.len() > 40 && kr.chance(1, 2) { data.len() - 1 - kr.range(0, 39) as usize } else { kr.range(1, data.len() as i64 - 1) as usize }
+                    }
+                    _ => 0,
+                };
+                let survived = crate::simfs::Disk::crash_state(&before, j, k, cut);
+                crate::interpose::with_world(|w| w.fs.disk = survived);
+                killed = true;
+                st.bump("fault.run_killed_mid_history");
+                if j.iter().any(|o| matches!(o, crate::simfs::Op::Write { .. })) {
+                    st.bump("fault.run_killed_while_it_wrote_the_cache");
+                }
             }
             for (k, n) in &obs.proc.fs_faults_fired {
                 st.add(&format!("fault.fs_{}", k), *n);
@@ -530,7 +557,7 @@ impl Engine for C13 {
             }
             // remember successful downloads whose cache write was not disturbed
             let write_fault_now = obs.proc.fs_faults_fired.keys().any(|k| !k.contains("read"));
-            if !write_fault_now && !fs_faults.enospc_after_bytes.is_some() {
+            if !write_fault_now && !fs_faults.enospc_after_bytes.is_some() && !killed {
                 for rq in &obs.requests {
                     if rq.ok {
                         downloaded_on.insert(rq.year, (today, pt));
@@ -635,6 +662,11 @@ impl Engine for C13 {
                 s.runs[i].fs_faults = FsFaultSpec::default();
                 c.push(s);
             }
+            if run.kill_seed.is_some() {
+                let mut s = sc.clone();
+                s.runs[i].kill_seed = None;
+                c.push(s);
+            }
         }
         if sc.max_write != usize::MAX || sc.max_read != usize::MAX {
             let mut s = sc.clone();
@@ -696,7 +728,7 @@ impl Engine for C13 {
         "exploration"
     }
     fn rule(&self) -> String {
-        "Seeded histories: a publication calendar (as for C12), then 1-8 runs; run r is a fresh simulated process on today_r = today_{r-1} + gap (gap weighted over 0,1,2,3,4-10,11-40,~365 days), with a published-today flag (monotone within a day), force flag (p=0.15), direct or application path (p=1/3; rows spread over 1-3 CSV files sharing one loader, row variants: USD without rate, USD with explicit rate, CAD trade with USD commission, USD trade + USD commission), and 1-8 look-up dates drawn relative to today (-9..+2), to the predicted frontier of each cached year (-3..+9), to year ends, to earlier look-ups, in ascending/descending/generated order; cache = real CsvRatesCache over SimFs (2/3) or real InMemoryRatesCache carried across processes (1/3); legal short reads/writes as a knob. Two of three histories are fault-free; every third (index % 3 == 2) injects network faults (error, HTML body, truncated JSON, empty body; p=1/4 per request) and, in a quarter of its runs, one file-system fault kind (EACCES on open-for-write/mkdir/open-for-read, ENOSPC after N bytes, EIO on rename/fsync/read). Oracle: each look-up equals the same look-up by the real code with no cache (fresh process, empty cache, forced) on the same snapshot; an Err is tolerated only for a look-up during or after which an injected network fault fired in the same run (never in a later run); successful downloads per (run, year) <= 1; when not forced, no request for a year whose needed dates (reference-model touched set) were all in the persisted cache at the start of the run, nor for a year that an earlier run downloaded successfully (cache write undisturbed) on a day after all the needed dates. evaluations = histories; distinct_nontrivial = distinct histories in which some run started from a non-empty persisted cache.".to_string()
+        "Seeded histories: a publication calendar (as for C12), then 1-8 runs; run r is a fresh simulated process on today_r = today_{r-1} + gap (gap weighted over 0,1,2,3,4-10,11-40,~365 days), with a published-today flag (monotone within a day), force flag (p=0.15), direct or application path (p=1/3; rows spread over 1-3 CSV files sharing one loader, row variants: USD without rate, USD with explicit rate, CAD trade with USD commission, USD trade + USD commission), and 1-8 look-up dates drawn relative to today (-9..+2), to the predicted frontier of each cached year (-3..+9), to year ends, to earlier look-ups, in ascending/descending/generated order; cache = real CsvRatesCache over SimFs (2/3) or real InMemoryRatesCache carried across processes (1/3); legal short reads/writes as a knob. Two of three histories are fault-free; every third (index % 3 == 2) injects network faults (error, HTML body, truncated JSON, empty body; p=1/4 per request) and, in a quarter of its runs, one file-system fault kind (EACCES on open-for-write/mkdir/open-for-read, ENOSPC after N bytes, EIO on rename/fsync/read). One run in eight of a faulty history is killed at a seeded point of its journalled file-system activity (only that prefix survives, the last write possibly cut) and the history goes on. Oracle: each look-up equals the same look-up by the real code with no cache (fresh process, empty cache, forced) on the same snapshot; an Err is tolerated only for a look-up during or after which an injected network fault fired in the same run (never in a later run); successful downloads per (run, year) <= 1; when not forced, no request for a year whose needed dates (reference-model touched set) were all in the persisted cache at the start of the run, nor for a year that an earlier run downloaded successfully (cache write undisturbed) on a day after all the needed dates. evaluations = histories; distinct_nontrivial = distinct histories in which some run started from a non-empty persisted cache.".to_string()
     }
     fn state_measure(&self) -> String {
         "distinct (look-up date minus cached-year frontier bucket, date minus today bucket, published flag, force, year-loaded-from-cache-earlier-in-run, outcome class) tuples over direct look-ups".to_string()
@@ -735,6 +767,7 @@ impl Engine for C13 {
             "fault.fs_read_error",
             "probe.app_path_several_files_one_loader",
             "fault.legal_short_writes",
+            "fault.run_killed_while_it_wrote_the_cache",
         ]
     }
 }
